@@ -204,7 +204,23 @@ fn funds_for(w: &World, s: &mut Src, prof: &Profile, named: &[(String, u128)], p
     // named: native denoms named by the message with their declared amounts
     let mut coins: Vec<(String, u128)> = named.iter().filter(|(_, a)| *a > 0).cloned().collect();
     if s.below(16) < prof.funds_games_16 {
-        match s.weighted(&[3, 3, 3, 3, 2, 2]) {
+        match s.weighted(&[3, 3, 3, 3, 2, 2, 2]) {
+            6 => {
+                // the named amount arrives under the upper-case LOOK-ALIKE of the denom (a different coin), with
+                // nothing, one unit or a random amount of the true denom beside it
+                if let Some((d, v)) = coins.first().cloned() {
+                    let up = d.to_uppercase();
+                    if up != d && w.balance(&AssetInfo::NativeToken { denom: up.clone() }, "actor0") > 0 {
+                        coins.remove(0);
+                        coins.push((up, v.max(1)));
+                        match s.below(3) {
+                            0 => {}
+                            1 => coins.push((d, 1)),
+                            _ => coins.push((d, 1 + s.bits_u128(40))),
+                        }
+                    }
+                }
+            }
             0 => {
                 // less
                 if let Some(c) = coins.first_mut() {
@@ -699,10 +715,16 @@ pub struct GenState {
 /// factory then pushes an update to every pair trading it), a configuration update, a pair migration
 pub fn gen_admin(w: &World, s: &mut Src, _prof: &Profile) -> Step {
     let owner = w.owner.to_string();
-    let msg = match s.weighted(&[7, 1, 2]) {
+    let msg = match s.weighted(&[7, 1, 2, 1]) {
         0 => haloswap::factory::ExecuteMsg::AddNativeTokenDecimals { denom: w.natives[s.idx(w.natives.len())].clone(), decimals: s.below(19) as u8 },
-        1 => haloswap::factory::ExecuteMsg::UpdateConfig { owner: None, token_code_id: Some(w.codes.cw20), pair_code_id: Some(w.codes.pair) },
-        _ => haloswap::factory::ExecuteMsg::MigratePair { contract: w.pairs[s.idx(w.pairs.len())].addr.to_string(), code_id: if s.bool() { Some(w.codes.pair) } else { None } },
+        // the default pair code changes to the second stored copy of the pair code (or back)
+        1 => haloswap::factory::ExecuteMsg::UpdateConfig { owner: None, token_code_id: Some(w.codes.cw20), pair_code_id: Some(if s.bool() { w.codes.pair } else { w.codes.pair_alt }) },
+        2 => haloswap::factory::ExecuteMsg::MigratePair {
+            contract: w.pairs[s.idx(w.pairs.len())].addr.to_string(),
+            code_id: match s.below(3) { 0 => Some(w.codes.pair), 1 => Some(w.codes.pair_alt), _ => None },
+        },
+        // the factory itself is migrated (to its own code) by its chain-level admin, the owner
+        _ => return Step { sender: owner, call: Call::Migrate { contract: w.factory.to_string(), code_id: w.codes.factory }, funds: vec![] },
     };
     Step { sender: owner, call: Call::Factory { msg }, funds: vec![] }
 }
@@ -944,11 +966,14 @@ pub fn special_routes(w: &World, s: &mut Src, prof: &Profile, gs: &mut GenState,
     let hops = gen_route_ops(w, s, distinct);
     let actor = w.actors[s.idx(w.actors.len())].to_string();
     let amt = offer_amount(w, s, prof, hops[0].0, hops[0].1, &actor).max(1);
-    let to = match s.weighted(&[3, 1, 2, 2]) {
+    let to = match s.weighted(&[6, 2, 4, 4, 1]) {
         0 => None,
         1 => Some(actor.clone()),
         2 => Some(w.actors[s.idx(w.actors.len())].to_string()),
-        _ => Some(fresh_addr(s.idx(3)).to_string()),
+        3 => Some(fresh_addr(s.idx(3)).to_string()),
+        // the router itself is named as the recipient: it is an account like any other for the minimum-receive
+        // guarantee (C13's pass-through statement does not apply to such a route)
+        _ => Some(w.router.to_string()),
     };
     // malformed shapes (must be rejected): empty, forked, disconnected
     let shape = s.weighted(&[12, 1, 1, 2]);
